@@ -227,6 +227,69 @@ def bitcoind_probe_fact(repo):
     raise ExtractError("probe: BlockDisconnected hashes of the witness reorganisations fit neither instance of the model: %s" % shapes)
 
 
+def rescan_source_fact(repo):
+    """(value, why) from the shape of the walk back inside BitcoindClient.rescan"""
+    path = os.path.join(repo, "chain", "bitcoind_client.go")
+    src = strip_comments(open(path).read())
+    m = re.search(r"func \(c \*BitcoindClient\) rescan\(", src)
+    if not m:
+        raise ExtractError("chain/bitcoind_client.go: func (c *BitcoindClient) rescan not found")
+    body = src[m.end():]
+    nxt = re.search(r"^func ", body, flags=re.M)
+    body = body[:nxt.start()] if nxt else body
+    lm = re.search(r"for\s+block\.Header\.PrevBlock\.String\(\)\s*!=\s*previousHeader\.Hash\s*\{", body)
+    if not lm:
+        raise ExtractError("rescan: walk-back loop `for block.Header.PrevBlock.String() != previousHeader.Hash` not found")
+    i, depth = lm.end(), 1
+    j = i
+    while j < len(body) and depth:
+        depth += {"{": 1, "}": -1}.get(body[j], 0)
+        j += 1
+    loop = re.sub(r"\s+", " ", body[i:j])
+    fixed_fetch = re.search(r"\bi-- hash, err := c\.GetBlockHash\(int64\(i\)\)", loop) is not None
+    old_fetch = re.search(r"hash, err := c\.GetBlockHash\(int64\(i - 1\)\)", loop) is not None and "i--" not in loop
+    fixed_pop = re.search(r"if headers\.Back\(\) != nil \{ headers\.Remove\(headers\.Back\(\)\) \} if headers\.Back\(\) != nil \{", loop) is not None
+    old_pop = re.search(r"if headers\.Back\(\) != nil \{ headers\.Remove\(headers\.Back\(\)\) if headers\.Back\(\) != nil \{", loop) is not None
+    if fixed_fetch and fixed_pop:
+        return True, "rescan walk back: `i--` before GetBlockHash(i); the list is popped first and an empty list asks the node at once"
+    if old_fetch and old_pop:
+        return False, "rescan walk back: GetBlockHash(i - 1) with the loop height unchanged; an emptied list keeps the removed header"
+    raise ExtractError("rescan: shape of the walk back not recognised (fetch: fixed=%s old=%s; pop: fixed=%s old=%s)" % (
+        fixed_fetch, old_fetch, fixed_pop, old_pop))
+
+
+def rescan_probe_fact(repo):
+    exe = _build_c15bd(repo)
+    p = subprocess.run([exe, "-n", "0"], cwd=vlib.WORK, stdout=subprocess.PIPE, stderr=subprocess.PIPE, text=True, timeout=300)
+    if p.returncode != 0:
+        raise ExtractError("probe: c15bd failed: %s" % p.stderr[-1500:])
+    cs = [json.loads(l) for l in p.stdout.splitlines() if l.strip()]
+    rs = [c for c in cs if c["in"]["steps"] and c["in"]["steps"][0]["k"] == "rescan" and c["in"]["steps"][0].get("at")]
+    if len(rs) < 3:
+        raise ExtractError("probe: only %d rescan witnesses with a reorganisation ran" % len(rs))
+    # does the walk back run past the common ancestor (a BlockDisconnected for the genesis block)?
+    to_genesis = [any(n["k"] == "disc" and n["h"] == 0 for st in c["bd"]["steps"] for n in st["ntfns"] or []) for c in rs]
+    clean = [not c["oracle"] for c in rs]
+    if all(clean):
+        return True, "probe: all %d rescan witnesses with a reorganisation during the rescan end on the node's tip with a valid stream" % len(rs)
+    hit = [c for c in rs if c["in"]["name"] in ("w-rescan-reorg-depth1-at-fetched-block", "w-rescan-reorg-depth3-below-fetched-blocks")]
+    if hit and all(any(n["k"] == "disc" and n["h"] == 0 for st in c["bd"]["steps"] for n in st["ntfns"] or []) for c in hit):
+        return False, "probe: a reorganisation below a block the rescan has fetched makes it disconnect every block down to genesis"
+    raise ExtractError("probe: rescan witnesses fit neither instance of the model: clean=%s to_genesis=%s" % (clean, to_genesis))
+
+
+def rescan_fact(repo):
+    try:
+        v, why = rescan_source_fact(repo)
+        return v, why, "source"
+    except (ExtractError, OSError) as e1:
+        try:
+            v, why = rescan_probe_fact(repo)
+            return v, why + " (source shape not recognised: %s)" % sanitize(str(e1))[:300], "probe"
+        except (ExtractError, OSError, ValueError, KeyError, subprocess.SubprocessError) as e2:
+            raise ExtractError("bitcoind_rescan_steps_down: source shape not recognised (%s) AND probing the built code failed (%s)" % (e1, e2))
+
+
 def bitcoind_fact(repo):
     """(value, why, path)"""
     try:
@@ -244,6 +307,7 @@ def facts(repo):
     """returns dict(hash, depth, why, source_line)"""
     out = _facts(repo)
     out["bd"], out["bd_why"], out["bd_path"] = bitcoind_fact(repo)
+    out["rs"], out["rs_why"], out["rs_path"] = rescan_fact(repo)
     return out
 
 
@@ -310,6 +374,9 @@ Definition recovery_before_rollback : bool := %s.
 (* chain/bitcoind_client.go [%s]: %s *)
 Definition bitcoind_reorg_disconnects_own_hash : bool := %s.
 
+(* chain/bitcoind_client.go [%s]: %s *)
+Definition bitcoind_rescan_steps_down : bool := %s.
+
 (* informational (not used by the model):
    known-block test of disconnectBlock : %s
    TxStore.Rollback in disconnectBlock  : %s
@@ -317,6 +384,7 @@ Definition bitcoind_reorg_disconnects_own_hash : bool := %s.
 """ % (sanitize(f["source_line"]), sanitize(f["why"]), "true" if f["hash"] else "false", f["depth"],
        sanitize(f["rec_why"]), "true" if f["rec_first"] else "false",
        f["bd_path"], sanitize(f["bd_why"]), "true" if f["bd"] else "false",
+       f["rs_path"], sanitize(f["rs_why"]), "true" if f["rs"] else "false",
        sanitize(info.get("known_block_test")), sanitize(info.get("rollback_arg")), sanitize(info.get("startup_rollback")))
 
 
